@@ -161,9 +161,41 @@
     int_binop_exact!(sub_exact_or_err, sub, checked_sub);
     int_binop_exact!(mul_exact_or_err, mul, checked_mul);
 
+//# ob name=mul_exact_or_err_34bit fn=value::ops::mul kind=complete stubs=coerce,failed_op stmt="mul on every pair with |x|, |y| <= 2^33 plus the products of these with 2^64 (so i64 and i128 overflow are both crossed): Ok(exact product) iff it fits in i128, never a wrapped or truncated value (the 65-bit and the full 128-bit domains are thorough-tier obligations)"
+    #[kani::proof]
+    #[kani::unwind(2)]
+    #[kani::stub(failed_op, stub_err)]
+    #[kani::stub(impossible_op, stub_err)]
+    #[kani::stub(coerce, coerce_contract)]
+    fn mul_exact_or_err_34bit() {
+        let x0: i64 = kani::any();
+        let y0: i64 = kani::any();
+        let lim: i64 = 1i64 << 33;
+        kani::assume(x0 >= -lim && x0 <= lim && y0 >= -lim && y0 <= lim);
+        // optionally scale one factor by 2^64 (a shift): products then cross the i128 boundary as well
+        let big: bool = kani::any();
+        let x: i128 = if big { (x0 as i128) << 64 } else { x0 as i128 };
+        let y: i128 = y0 as i128;
+        unsafe { GA = x; GB = y; }
+        let a = Value::from(0i64);
+        let b = Value::from(0i64);
+        let res = mul(&a, &b);
+        let exact: Option<i128> = x.checked_mul(y);
+        match (&res, exact) {
+            (Ok(v), Some(e)) => { assert!(small_of(v) == Some(e)); }
+            (Err(_), None) => {}
+            _ => { assert!(false); }
+        }
+        kani::cover!(res.is_ok(), "fits");
+        kani::cover!(res.is_err(), "overflow");
+        std::mem::forget(res);
+        std::mem::forget(a);
+        std::mem::forget(b);
+    }
+
     // mul on the sub-domain |x|, |y| <= 2^64 (every 64-bit stored operand of either signedness, and one bit more):
     // products reach 2^128, so the overflow branch is exercised; quick tier
-//# ob name=mul_exact_or_err_65bit fn=value::ops::mul kind=complete stubs=coerce,failed_op stmt="mul on every pair with |x|, |y| <= 2^64 (covers all u64/i64 stored operands): Ok(exact product) iff it fits i128, else Err; never a wrapped value"
+//# ob name=mul_exact_or_err_65bit tier=thorough fn=value::ops::mul kind=complete stubs=coerce,failed_op stmt="mul on every pair with |x|, |y| <= 2^64 (covers all u64/i64 stored operands): Ok(exact product) iff it fits i128, else Err; never a wrapped value"
     #[kani::proof]
     #[kani::unwind(2)]
     #[kani::stub(failed_op, stub_err)]
